@@ -181,6 +181,9 @@ def run(ctx, rep):
     # ---- R20.3 -------------------------------------------------------------------------------------------------
     elem, sid_f, ra_f, day_ctor = ephemeris_roles(ctx)
     rep.sample({'sidereal field': sid_f, 'right-ascension field': ra_f})
+    # ---- R20.6 the clock-midnight seam of clause 1 (a finding on the unchanged tree: see KNOWN_FINDINGS.txt) ----------------------------------
+    from . import seam20
+    rep.floor('day-fraction wraps examined for the clock-midnight seam (R20.6)', seam20.check(ctx, rep, sid_f), 0)
     norm = set(ctx.role('normalisers'))
     lon_adt = ctx.adt('Longitude')
 
